@@ -81,8 +81,7 @@ IsRedispatch(n, env) ==
   /\ Len(n.c[2].c) >= 1 /\ ~IsSpreadArg(n.c[2].c[1])
   /\ LET m == StripParen(env.b[n.c[1].c[1].v].raw)
          r == StripParen(n.c[2].c[1].c[1])
-     IN /\ m.t = "MemberExpression"
-        /\ m.c[2].t = "Identifier"
+     IN /\ m.t = "MemberExpression"       \* R.m, R[k] or R.#p: an optional call o[k]?.(..) is re-dispatched the same way
         /\ SameReceiver(StripParen(m.c[1]), r)
         /\ (r.t = "Identifier" => IsInjIdent(r, env))
 RedispName(n) == n.c[1].c[1].v                         \* M
